@@ -49,6 +49,11 @@ LAYOUTS = [
     # names git prints QUOTED in its porcelain output (space, non-ASCII, a double quote)
     {"pfile": "release notes.txt", "ufile": "other file.txt", "vp": "MAJOR.MINOR.PATCH", "cur": "1.2.3", "args": ["--patch"]},
     {"pfile": "docs/gr\u00fc\u00dfe.md", "ufile": "\u00fcbrig.txt", "vp": "MAJOR.MINOR.PATCH", "cur": "1.2.3", "args": ["--patch"]},
+    # core.quotePath=false: git still quotes a name with a blank, but leaves the non-ASCII bytes as they are
+    {"pfile": "gr\u00fcne version.txt", "ufile": "\u00fcbrige datei.txt", "vp": "MAJOR.MINOR.PATCH", "cur": "1.2.3", "args": ["--patch"],
+     "git_config": [("core.quotePath", "false")]},
+    # a name that looks like git's rename notation
+    {"pfile": "draft -> final.txt", "ufile": "x -> y.md", "vp": "MAJOR.MINOR.PATCH", "cur": "1.2.3", "args": ["--patch"]},
     # the unrelated file's name is a string prefix of the pattern file's path (README next to README.md)
     {"pfile": "README.md", "ufile": "README", "vp": "MAJOR.MINOR.PATCH", "cur": "1.2.3", "args": ["--patch"]},
     {"pfile": "src/pkg/version.py", "ufile": "src/pkg/ver", "vp": "MAJOR.MINOR.PATCH", "cur": "0.9.9", "args": ["--minor"]},
@@ -63,7 +68,7 @@ def cases(ctx):
             if rep > 0 and li != rep % len(LAYOUTS):
                 continue
             if rep == 0 and li in (1, 2) and ctx.quick:
-                # quick: the full product on layouts 0, 3..8; layouts 1, 2 only in thorough
+                # quick: the full product on layouts 0, 3..10; layouts 1, 2 only in thorough
                 continue
             for st in STATUSES:
                 for role in ROLES:
@@ -218,6 +223,8 @@ def run_case(ctx, case):
             git(d, "init", "-q", "-b", "main", "--separate-git-dir", d + ".gitdir")
         else:
             git(d, "init", "-q", "-b", "main")
+        for k_, v_ in lay.get("git_config", []):
+            git(d, "config", k_, v_)
         if repo != "plain":
             if not os.path.isfile(os.path.join(d, ".git")):
                 raise harness.Skip("scenario-not-reproduced:.git-is-not-a-file")
